@@ -388,3 +388,48 @@ Proof.
 Qed.
 Lemma psig_range x a1 c1 a2 c2 : 0 < mf_psig RO x a1 c1 a2 c2 < 1.
 Proof. unfold mf_psig. unfold13. pose proof (sig_range x a1 c1). pose proof (sig_range x a2 c2). nra. Qed.
+
+(* ================================================================ the generic dispatcher a_mf *)
+Definition mf_by_tag (e : nat) (x a0 a1 a2 a3 : R) : R :=
+  match e with
+  | 1%nat => mf_gauss RO x a0 a1 | 2%nat => mf_gauss2 RO x a0 a1 a2 a3 | 3%nat => mf_gbell RO x a0 a1 a2 | 4%nat => mf_sig RO x a0 a1
+  | 5%nat => mf_dsig RO x a0 a1 a2 a3 | 6%nat => mf_psig RO x a0 a1 a2 a3 | 7%nat => mf_trap RO x a0 a1 a2 a3 | 8%nat => mf_tri RO x a0 a1 a2
+  | 9%nat => mf_lins RO x a0 a1 | 10%nat => mf_linz RO x a0 a1 | 11%nat => mf_s RO x a0 a1 | 12%nat => mf_z RO x a0 a1
+  | 13%nat => mf_pi RO x a0 a1 a2 a3 | _ => 0
+  end.
+
+(* all 13 tags call their specific function on a[0..]; every other tag (A_MF_NUL included) gives 0 *)
+Lemma mf_dispatch e x a0 a1 a2 a3 rest : mf RO e x (a0 :: a1 :: a2 :: a3 :: rest) = Some (mf_by_tag e x a0 a1 a2 a3).
+Proof. do 14 (destruct e as [|e]; [reflexivity|]). reflexivity. Qed.
+
+(* the model reads exactly mf_arity e parameters: it fails (None) iff fewer are supplied *)
+Lemma mf_reads_arity e x a : mf RO e x a = None <-> (length a < mf_arity e)%nat.
+Proof.
+  do 14 (destruct e as [|e]; [destruct a as [|a0 [|a1 [|a2 [|a3 r]]]]; cbn; split; intros H; try discriminate; try lia; reflexivity|]).
+  cbn. split; [destruct a; discriminate|lia].
+Qed.
+
+(* values of the dispatcher are membership degrees; only the difference of sigmoids needs its precondition *)
+Definition dsig_ok (ps : list R) : Prop :=
+  exists a c1 c2 rest, ps = a :: c1 :: a :: c2 :: rest /\ ((0 <= a /\ c1 <= c2) \/ (a <= 0 /\ c2 <= c1)).
+
+Lemma mf_unit e x ps y : mf RO e x ps = Some y -> (e = 5%nat -> dsig_ok ps) -> 0 <= y <= 1.
+Proof.
+  intros H D.
+  destruct e as [|e]; [cbn in H; inversion H; lra|].
+  destruct e as [|e]; [destruct ps as [|a0 [|a1 r]]; cbn in H; inversion H; pose proof (gauss_range x a0 a1); lra|].
+  destruct e as [|e]; [destruct ps as [|a0 [|a1 [|a2 [|a3 r]]]]; cbn in H; inversion H; pose proof (gauss2_range x a0 a1 a2 a3); lra|].
+  destruct e as [|e]; [destruct ps as [|a0 [|a1 [|a2 r]]]; cbn in H; inversion H; pose proof (gbell_range x a0 a1 a2); lra|].
+  destruct e as [|e]; [destruct ps as [|a0 [|a1 r]]; cbn in H; inversion H; pose proof (sig_range x a0 a1); lra|].
+  destruct e as [|e].
+  { destruct (D eq_refl) as (a & c1 & c2 & rest & -> & Hc). cbn in H. inversion H. pose proof (dsig_range x a c1 c2 Hc). lra. }
+  destruct e as [|e]; [destruct ps as [|a0 [|a1 [|a2 [|a3 r]]]]; cbn in H; inversion H; pose proof (psig_range x a0 a1 a2 a3); lra|].
+  destruct e as [|e]; [destruct ps as [|a0 [|a1 [|a2 [|a3 r]]]]; cbn in H; inversion H; apply trap_range|].
+  destruct e as [|e]; [destruct ps as [|a0 [|a1 [|a2 r]]]; cbn in H; inversion H; apply tri_range|].
+  destruct e as [|e]; [destruct ps as [|a0 [|a1 r]]; cbn in H; inversion H; apply lins_range|].
+  destruct e as [|e]; [destruct ps as [|a0 [|a1 r]]; cbn in H; inversion H; apply linz_range|].
+  destruct e as [|e]; [destruct ps as [|a0 [|a1 r]]; cbn in H; inversion H; apply s_range|].
+  destruct e as [|e]; [destruct ps as [|a0 [|a1 r]]; cbn in H; inversion H; apply z_range|].
+  destruct e as [|e]; [destruct ps as [|a0 [|a1 [|a2 [|a3 r]]]]; cbn in H; inversion H; apply pi_range|].
+  cbn in H. inversion H. lra.
+Qed.
